@@ -3,31 +3,376 @@
 task, recording broker / middleware / result backend, Context inside the body).
 
 case: {"ser", "mw": {"count", "label", "nror"}, "labels": [[key cps, typed value]...], "outs": ["F"|"S"|"N", ...]
-       (the last one repeats), "args": [...], "kwargs": {...}}
+       (the last one repeats), "args": [...], "kwargs": {...}, optional "env": {...}}
 observation: {"sent_id", "execs": [{"out", "labels", "task_id", "args", "stored", "is_err", "res_labels", "resent",
-       "resent_ids", "raised"}...], "undelivered": n}"""
+       "resent_ids", "raised"}...], "undelivered": n}
+
+"env" (optional) is the worker / broker configuration the middleware lives in - everything the property does not
+mention and that therefore must not change the number of executions:
+  propagate, validate, ack, A, P, N, wtt   Receiver(...) keyword arguments (propagate_exceptions, validate_params, ack_type,
+                              max_async_tasks, max_prefetch, max_tasks_to_execute, wait_tasks_timeout)
+  cli: argv | None            the same options given on the worker's command line instead: the real WorkerArgs.from_cli +
+                              start_listen compute the Receiver keyword arguments (harness/cli_glue.py)
+  ackable: None|"sync"|"async"  the message is delivered as bytes or as an AckableMessage with a sync / async ack
+  via: "callback"|"listen"    each delivery is `await receiver.callback(msg)` or a whole `receiver.listen()` session
+                              (prefetcher -> queue -> runner -> semaphores -> callback task) whose broker yields that message
+  fresh: bool                 a new Receiver object for every delivery (worker restarted between attempts)
+  fn: "async"|"sync"|"agen_dep"|"gen_dep"|"sync_gen_dep"|"dep_fails"   shape of the task function: coroutine function,
+                              plain function (thread pool), with an async / sync generator dependency (try/finally,
+                              re-raising, swallowing teardown), or the failure raised by a dependency (not by the body)
+  fail_by: "raise"|"falsy"|"timeout"   how an "F" attempt fails: ValueError, an exception object that is falsy
+                              (__len__ = 0), or by exceeding the task's `timeout` label (virtual time)
+  mw_before / mw_mid / mw_after: [kind...]   other middlewares before RecMiddleware, between it and the retry
+                              middleware, after the retry middleware (kinds: see MW_KINDS); mw_late: they are added
+                              after the Receiver was constructed
+  retry_cls: "base"|"sub"     SimpleRetryMiddleware itself or a trivial subclass of it
+Nothing of /repo is edited or re-implemented: the env only chooses which real objects are built and how they are called."""
+import asyncio
+
 import labels_driver as LD
+import vloop
+from taskiq import Context, SimpleRetryMiddleware, TaskiqDepends, TaskiqMiddleware
+from taskiq.acks import AckableMessage, AcknowledgeType
+from taskiq.exceptions import NoResultError
+from taskiq.receiver import Receiver
 
 ACT = {"F": "fail", "S": "ok", "N": "noresult"}
+FAIL_ACT = {"raise": "fail", "falsy": "fail_falsy", "timeout": "hang"}
+OUT_OF_ACT = {"fail": "F", "fail_falsy": "F", "hang": "F", "ok": "S", "noresult": "N"}
+
+
+# ------------------------------------------------------------------ the environment's building blocks
+class EmptyError(Exception):
+    """a failure whose exception object is falsy"""
+
+    def __len__(self):
+        return 0
+
+
+class SubRetry(SimpleRetryMiddleware):
+    """a user's subclass of the retry middleware that changes nothing"""
+
+
+class MwPlain(TaskiqMiddleware):
+    pass
+
+
+class MwSyncErr(TaskiqMiddleware):
+    def on_error(self, message, result, exception):
+        return None
+
+
+class MwAsyncErr(TaskiqMiddleware):
+    async def on_error(self, message, result, exception):
+        await asyncio.sleep(0)
+
+
+class MwSubst(TaskiqMiddleware):
+    """substitutes the error of the result (only ever placed before the retry middleware, which decides afterwards)"""
+
+    def on_error(self, message, result, exception):
+        if isinstance(exception, NoResultError):      # on_error fires for the no-result signal too: leave that one alone
+            return
+        result.error = RuntimeError("substituted")
+        result.return_value = "subst"
+
+
+class MwTouch(TaskiqMiddleware):
+    """changes fields of the result the statement does not speak about"""
+
+    async def on_error(self, message, result, exception):
+        result.return_value = "touched"
+        result.log = "touched"
+
+
+class MwHooks(TaskiqMiddleware):
+    async def pre_execute(self, message):
+        return message
+
+    def post_execute(self, message, result):
+        return None
+
+    async def post_save(self, message, result):
+        await asyncio.sleep(0)
+
+
+class MwCopy(TaskiqMiddleware):
+    """pre_execute hands on a deep copy of the message"""
+
+    def pre_execute(self, message):
+        return message.model_copy(deep=True)
+
+
+class MwPostSaveRaises(TaskiqMiddleware):
+    def post_save(self, message, result):
+        raise RuntimeError("post_save failed")
+
+
+MW_KINDS = dict(plain=MwPlain, sync_err=MwSyncErr, async_err=MwAsyncErr, subst=MwSubst, touch=MwTouch, hooks=MwHooks,
+                copy=MwCopy, post_save_raises=MwPostSaveRaises)
+
+
+def make_body(scen, env):
+    """the task function; same plan stepping / logging as labels_driver's body, in the shape env["fn"] asks for"""
+    fn = env.get("fn", "async")
+    teardown = scen.teardown
+
+    def next_act():
+        if scen.repeat_last and len(scen.plan) == 1:
+            return scen.plan[0]
+        return scen.plan.pop(0) if scen.plan else "ok"
+
+    def record(act, ctx, args, kwargs):
+        scen.body_log.append({"act": act, "ctx": LD.enc_dict(ctx.message.labels), "tid": ctx.message.task_id,
+                              "args": list(args), "kwargs": dict(kwargs)})
+
+    def perform(act):
+        if act == "fail":
+            raise ValueError("planned failure")
+        if act == "fail_falsy":
+            raise EmptyError()
+        if act == "noresult":
+            raise NoResultError()
+        return "ok"
+
+    async def aperform(act):
+        if act == "hang":
+            await asyncio.sleep(3600)
+            return "late"
+        return perform(act)
+
+    async def agen_dep():
+        try:
+            yield "agen"
+        finally:
+            teardown.append("agen")
+
+    def gen_dep():
+        try:
+            yield "gen"
+        except BaseException:
+            teardown.append("gen-exc")
+            raise
+        teardown.append("gen")
+
+    def gen_swallow():
+        try:
+            yield "gen"
+        except Exception:  # noqa: BLE001
+            teardown.append("gen-swallowed")
+
+    def plan_dep(ctx: Context = TaskiqDepends()):
+        """a dependency that fails instead of the body"""
+        act = next_act()
+        record(act, ctx, ctx.message.args, ctx.message.kwargs)
+        if act in ("fail", "fail_falsy"):
+            perform(act)
+        return act
+
+    if fn == "async":
+        async def body(*args, ctx: Context = TaskiqDepends(), **kwargs):
+            act = next_act()
+            record(act, ctx, args, kwargs)
+            return await aperform(act)
+    elif fn == "sync":
+        def body(*args, ctx: Context = TaskiqDepends(), **kwargs):
+            act = next_act()
+            record(act, ctx, args, kwargs)
+            return perform(act)
+    elif fn == "agen_dep":
+        async def body(*args, ctx: Context = TaskiqDepends(), d: str = TaskiqDepends(agen_dep), **kwargs):
+            act = next_act()
+            record(act, ctx, args, kwargs)
+            return await aperform(act)
+    elif fn == "gen_dep":
+        async def body(*args, ctx: Context = TaskiqDepends(), d: str = TaskiqDepends(gen_dep), **kwargs):
+            act = next_act()
+            record(act, ctx, args, kwargs)
+            return await aperform(act)
+    elif fn == "sync_gen_dep":
+        def body(*args, ctx: Context = TaskiqDepends(), d: str = TaskiqDepends(gen_swallow), **kwargs):
+            act = next_act()
+            record(act, ctx, args, kwargs)
+            return perform(act)
+    elif fn == "dep_fails":
+        async def body(*args, d: str = TaskiqDepends(plan_dep), g: str = TaskiqDepends(gen_dep), **kwargs):
+            return await aperform(d)
+    else:
+        raise ValueError(fn)
+    return body
+
+
+class EnvReceiver:
+    """what deliver_chain calls instead of a bare Receiver: builds the real Receiver as the env says and hands the
+    message to it the way the env says"""
+
+    def __init__(self, scen, broker, env, cli_kw):
+        self.scen, self.broker, self.env, self.cli_kw = scen, broker, env, cli_kw
+        # a Receiver serves one listen() (its runner ends holding a slot of the semaphore): a listen session is a worker
+        # process of its own, so every delivery "via listen" gets a new Receiver
+        self.recv = None if env.get("fresh") or env.get("via") == "listen" else self.build()
+
+    def build(self):
+        env = self.env
+        if self.cli_kw is not None:
+            kw = dict(self.cli_kw)
+        else:
+            at = env.get("ack")
+            kw = dict(validate_params=env.get("validate", True), propagate_exceptions=env.get("propagate", True),
+                      max_async_tasks=env.get("A", 1), max_prefetch=env.get("P", 0),
+                      max_tasks_to_execute=env.get("N"), wait_tasks_timeout=env.get("wtt"),
+                      ack_type=AcknowledgeType(at) if at else None)
+        return Receiver(self.broker, run_startup=False, **kw)
+
+    async def callback(self, data):
+        recv = self.recv if self.recv is not None else self.build()
+        acks = self.scen.acks
+        msg = data
+        if self.env.get("ackable") == "sync":
+            msg = AckableMessage(data=data, ack=lambda: acks.append("sync"))
+        elif self.env.get("ackable") == "async":
+            async def ack():
+                await asyncio.sleep(0)
+                acks.append("async")
+            msg = AckableMessage(data=data, ack=ack)
+        if self.env.get("via") == "listen":
+            await self.listen_once(recv, msg)
+        else:
+            await recv.callback(message=msg, raise_err=False)   # exactly what Receiver.runner does
+
+    async def listen_once(self, recv, msg):
+        """one real listen() session whose broker delivers exactly this message and then ends its stream"""
+        box = {"started": False, "exc": None}
+        done = asyncio.Event()
+        real_cb = recv.callback
+
+        async def cb(message, raise_err=False):
+            box["started"] = True
+            try:
+                return await real_cb(message=message, raise_err=raise_err)
+            except BaseException as e:  # noqa: BLE001
+                box["exc"] = e
+                raise
+            finally:
+                done.set()
+
+        async def listen():
+            yield msg
+
+        recv.callback = cb
+        self.broker.listen = listen
+        try:
+            await recv.listen(asyncio.Event())
+            if box["started"]:
+                await done.wait()       # wait_tasks_timeout may let listen() return before the execution is over
+        finally:
+            del self.broker.listen
+            del recv.callback
+        if box["exc"] is not None:
+            raise box["exc"]
+
+
+class EnvScenario(LD.Scenario):
+    def __init__(self, case, uid, env, cli_kw):
+        super().__init__(case, uid)
+        self.env, self.acks, self.teardown = env, [], []
+        body = make_body(self, env)
+        for b in self.brokers:
+            for name in self.names:
+                t = b.find_task(name)
+                if t is not None:
+                    t.original_func = body
+        if not env.get("mw_late"):
+            self.install_middlewares()
+        self.receivers = [EnvReceiver(self, b, env, cli_kw) for b in self.brokers]
+        if env.get("mw_late"):
+            self.install_middlewares()
+
+    def install_middlewares(self):
+        env = self.env
+        for b in self.brokers:
+            mws = b.middlewares
+            ri = [i for i, m in enumerate(mws) if isinstance(m, SimpleRetryMiddleware)][0]
+            if env.get("retry_cls") == "sub":
+                old = mws[ri]
+                mws[ri] = SubRetry(default_retry_count=old.default_retry_count, default_retry_label=old.default_retry_label,
+                                   no_result_on_retry=old.no_result_on_retry)
+                mws[ri].set_broker(b)
+
+            def make(kinds):
+                out = []
+                for k in kinds:
+                    m = MW_KINDS[k]()
+                    m.set_broker(b)
+                    out.append(m)
+                return out
+
+            mws[ri + 1:ri + 1] = make(env.get("mw_after", []))
+            mws[ri:ri] = make(env.get("mw_mid", []))
+            mws[0:0] = make(env.get("mw_before", []))
+
+
+_UID = [0]
+
+
+def run_env(lc, case, opts):
+    """labels_driver.run_case for the fixed C11 history (kicker, with_task_id, kiq) on an EnvScenario"""
+    env = case["env"]
+    cli_kw = None
+    if env.get("cli") is not None:
+        import cli_glue
+        from taskiq import InMemoryBroker
+        cli_kw = cli_glue.receiver_kwargs_via_cli(list(env["cli"]), InMemoryBroker())   # before the virtual loop exists
+    _UID[0] += 1
+    uid = "e%d_%d" % (id(case) % 9973, _UID[0])
+    op = lc["ops"][-1]
+
+    async def main(loop):
+        sc = EnvScenario(lc, uid, env, cli_kw)
+        k = sc.tasks[0].kicker()
+        k.with_task_id("c0")
+        try:
+            h = await k.kiq(*op["args"], **op["kwargs"])
+            kerr, hid = None, h.task_id
+        except Exception as e:  # noqa: BLE001
+            kerr, hid = "%s: %s / %r" % (type(e).__name__, e, e.__cause__), None
+        new = list(sc.kicked)
+        del sc.kicked[:]
+        rec = {"op": 2, "err": kerr, "handle_id": hid, "n": len(new), "plan": op["plan"], "chain": []}
+        if new:
+            b, m = new[0]
+            rec.update(broker=b, task_id=m.task_id, task_name=m.task_name, bm_labels=LD.enc_dict(m.labels),
+                       wire=LD.wire_of(sc.brokers[b], m))
+            rec["chain"] = await sc.deliver_chain(b, m, rec["plan"])
+        return {"names": sc.names, "sent": [rec], "final": sc.snapshot(), "acks": list(sc.acks),
+                "teardown": list(sc.teardown), "cli_kw": None if cli_kw is None else {k: repr(v) for k, v in sorted(cli_kw.items())},
+                "other_str": {k: [ord(c) for c in str(LD.dec({"t": "other", "k": k}))] for k in LD.OTHER_KINDS}}
+
+    return vloop.run(main)
 
 
 def run_case(case, opts):
+    env = case.get("env")
+    fail_act = FAIL_ACT[(env or {}).get("fail_by", "raise")]
     lc = dict(ser=case.get("ser", "json"), mw=dict(case["mw"], enabled=True), repeat_last=True, guard=case.get("guard", 40),
               tasks=[dict(labels=case["labels"], shared=False)],
               ops=[dict(op="kicker", t=0), dict(op="with_task_id", k=0, id="c0"),
-                   dict(op="kiq", k=0, plan=[ACT[o] for o in case["outs"]], args=case.get("args", []),
-                        kwargs=case.get("kwargs", {}))])
-    o = LD.run_case(lc, opts)
+                   dict(op="kiq", k=0, plan=[fail_act if o == "F" else ACT[o] for o in case["outs"]],
+                        args=case.get("args", []), kwargs=case.get("kwargs", {}))])
+    o = LD.run_case(lc, opts) if env is None else run_env(lc, case, opts)
     s = o["sent"][0]
     execs, undelivered = [], 0
     for at in s["chain"]:
         if at["nbody"] == 0:
             undelivered += 1
             continue
-        execs.append(dict(out={v: k for k, v in ACT.items()}.get(at["act"], at["act"]), labels=at["ctx"], pre=at["pre"],
+        execs.append(dict(out=OUT_OF_ACT.get(at["act"], at["act"]), labels=at["ctx"], pre=at["pre"],
                           task_id=at.get("ctx_tid"), args=at["args"], stored=at["res"] is not None,
                           is_err=at.get("res_err"), res_exc=at.get("res_exc"), res_labels=at["res"], res_tid=at.get("res_tid"),
                           resent=len(at["resent"]), resent_ids=[m["task_id"] for m in at["resent"]],
                           resent_wire=[m["wire"] for m in at["resent"]], raised=at["callback_raised"], nbody=at["nbody"]))
-    return dict(sent_id=s.get("task_id"), err=s["err"], wire=s.get("wire"), execs=execs, undelivered=undelivered,
-                final_task_labels=o["final"][0], other_str=o["other_str"])
+    out = dict(sent_id=s.get("task_id"), err=s["err"], wire=s.get("wire"), execs=execs, undelivered=undelivered,
+               final_task_labels=o["final"][0], other_str=o["other_str"])
+    if env is not None:
+        out.update(acks=o["acks"], teardown=o["teardown"], cli_kw=o["cli_kw"])
+    return out
